@@ -288,7 +288,11 @@ prop("C11", "nitrocheck",
           "provably blocked (its goroutines parked on channel/WaitGroup operations, nobody reading) after 5 s + 3 s; a load that is still computing (gigabyte allocation "
           "from a damaged length prefix) is waited for, and counted as inconclusive after 10 minutes. Flips of the most significant length-prefix byte to >= 0x40 "
           "(2-4 GiB allocations) are sampled (2 per base quick, 8 thorough), everything else is enumerated. evaluations = faults applied; every applied fault changes bytes "
-          "the loader reads, so each is non-trivial; distinct = hash of (base description, fault, concurrency).",
+          "the loader reads, so each is non-trivial; distinct = hash of (base description, fault, concurrency). Each case enumerates one backup without and one with delta "
+          "files (delta content forced); manifests get 12 XOR masks per byte (thorough: all 255). TestC11Multi draws and FuzzC11 (thorough, coverage-guided) evolves sets of "
+          "up to 6 faults with arbitrary XOR masks on two fixed backups (multi-fault sets keep shard-file faults only: removing an optional manifest is a legacy backup by "
+          "design); non-trivial there: >= 2 faults. TestC11KnownFinding replays the listed checksum-collision finding on a hand-built directory. A silent outcome is attributed "
+          "to that finding only if the harness's own XOR-of-CRC32 over the damaged shard bytes equals the recorded checksum.",
      technique="fault enumeration over generated backups (byte flips, truncations, removals, multi-fault sets) with an error-or-exact oracle",
      design_ref="DESIGN.md §3 C11",
      level_text="Systematic single-fault enumeration on real backup directories of generated databases plus generated multi-fault sets; exhaustive only for the bases and "
